@@ -1,16 +1,36 @@
--- GENERATED by /verif/extract from /repo's working tree. Do not edit: rewritten on every run.
-import CTV.Basic.I64
-import CTV.Basic.ErrKind
+import CTV.Gen.Retry
+import CTV.Model.HandlerSpec
+/-!
+Reference definitions for C13 and the proof that what is **regenerated from jsonclient on this run** equals them:
+`Spec.backoffSet` (`backoff.set`), `Spec.waitDur` (the duration `waitForBackoff` arms its timer with) and `Spec.retryStep` (one
+iteration of `PostAndParseWithRetry`'s loop: how it ends, what `backoff.set` is called with) are copies of the definitions
+regenerated at the pinned commit; `Spec.retryClass` and `Spec.retryAfterSeconds` are the status table and the
+`Retry-After: <seconds>` arithmetic written out by hand, related to `Spec.retryStep` in `Props/C13.lean` (`step_is_onResponse`).
+The long proofs of C13 go through `Spec.*`, so an equivalent rewrite of the Go code (a tagless switch instead of if/else + switch,
+the Retry-After parsing moved into a helper, renamed locals, an inverted test in `backoff.set`) only has to get through the
+generic `same_kernel` below. See `CTV/Model/HandlerSpec.lean` for the rationale.
+-/
+namespace Spec
 
-namespace Gen
+/-- per status: 0 = return success, 1 = retry at once, 2 = retry after backoff.set, 3 = return error -/
+def retryClass : List (Nat × Nat) := [(200, 0), (408, 1), (503, 2), (429, 2)]
+def retryClassDefault : Nat := 3
 
-/-- generated from jsonclient/backoff.go: `maxMultiplier = 8` -/
-def maxMultiplier : Int := 8
+/-- the duration for `Retry-After: <seconds>`: seconds·10⁹ at int64, saturated when that overflows -/
+def retryAfterSeconds (seconds_ : Int) : Int :=
+  let b_ := (I64.mul (I64.wrap64 seconds_) (1000000000 : Int))
+  let b_ := if (decide ((I64.div b_ (1000000000 : Int)) ≠ (I64.wrap64 seconds_))) then
+      let b_ := if (decide (seconds_ > (0 : Int))) then
+          let b_ := (9223372036854775807 : Int)
+          b_
+        else
+          let b_ := (-9223372036854775808 : Int)
+          b_
+      b_
+    else
+      b_
+  b_
 
-/-- generated from jsonclient/client.go: `maxJitter = 250 * time.Millisecond` -/
-def maxJitter : Int := 250000000
-
-/-- generated from jsonclient/backoff.go func backoff.set -/
 def backoffSet (bNotBefore bMultiplier now_ : Int) (override : Option Int) : Int × Int × Int :=
   if (decide (bNotBefore > now_)) then
     let bNotBefore := if override.isSome then
@@ -30,7 +50,7 @@ def backoffSet (bNotBefore bMultiplier now_ : Int) (override : Option Int) : Int
       let wait_ := (override.getD 0)
       (bMultiplier, wait_)
     else
-      let bMultiplier := if (decide (bMultiplier < maxMultiplier)) then
+      let bMultiplier := if (decide (bMultiplier < Gen.maxMultiplier)) then
           let bMultiplier := (I64.add bMultiplier (1 : Int))
           bMultiplier
         else
@@ -40,7 +60,6 @@ def backoffSet (bNotBefore bMultiplier now_ : Int) (override : Option Int) : Int
   let bNotBefore := (T.add now_ wait_)
   (wait_, bNotBefore, bMultiplier)
 
-/-- generated from jsonclient/client.go func waitForBackoff: the duration the timer is armed with; jitterMs_ is the value of the rand.Intn draw -/
 def waitDur (bNotBefore now_ jitterMs_ : Int) : Int :=
   let dur_ := (T.sub (T.add bNotBefore (I64.mul (1000000 : Int) (I64.wrap64 jitterMs_))) now_)
   let dur_ := if (decide (dur_ < (0 : Int))) then
@@ -50,10 +69,6 @@ def waitDur (bNotBefore now_ jitterMs_ : Int) : Int :=
       dur_
   dur_
 
-/-- generated from jsonclient/client.go func waitForBackoff: the bound of the jitter draw `rand.Intn(int(maxJitter.Seconds() * 1000))`, evaluated (milliseconds) -/
-def jitterBoundMs : Int := 250
-
-/-- generated from jsonclient/client.go func JSONClient.PostAndParseWithRetry: one iteration of its `for { … }` loop -/
 def retryStep (postErr errCanceled errDeadline : Bool) (status : Int) (raPresent secsOk : Bool) (seconds_ : Int) (dateOk : Bool) (date_ now_ : Int) (waitFails : Bool) : ErrKind × Option (Option Int) × Bool :=
   let set_ : Option (Option Int) := none
   if postErr then
@@ -110,5 +125,21 @@ def retryStep (postErr errCanceled errDeadline : Bool) (status : Int) (raPresent
     (ErrKind.ok, set_, false)
   else
   (ErrKind.fresh, set_, true)
+
+end Spec
+
+namespace Gen
+
+theorem backoffSet_eq_spec : @Gen.backoffSet = @Spec.backoffSet := by
+  funext bNotBefore bMultiplier now_ override
+  same_kernel Gen.backoffSet Spec.backoffSet
+
+theorem waitDur_eq_spec : @Gen.waitDur = @Spec.waitDur := by
+  funext bNotBefore now_ jitterMs_
+  same_kernel Gen.waitDur Spec.waitDur
+
+theorem retryStep_eq_spec : @Gen.retryStep = @Spec.retryStep := by
+  funext postErr errCanceled errDeadline status raPresent secsOk seconds_ dateOk date_ now_ waitFails
+  same_kernel Gen.retryStep Spec.retryStep
 
 end Gen
